@@ -3,6 +3,9 @@ CONSTANTS
   MaxN = 4
   Kinds = {"pass", "short", "prepost", "srvhdr"}
   HKinds = {"rec", "plain"}
-  Reverse = FALSE
-INVARIANTS TypeOK VisitOrder AtMostOnce ClosedForm
+  Spares = {0, 2}
+  MaxOverlap = 1
+  Rounds = 2
+  Variant = "asWritten"
+INVARIANTS TypeOK VisitOrder CallerListIntact AtMostOnce ClosedForm
 CHECK_DEADLOCK FALSE
